@@ -96,6 +96,10 @@ class Path:
         s.notes = []         # human readable breadcrumbs (branch decisions) for reports
         s.consts = {}        # interned python constants -> SV
         s.unsat = False
+        s.par_on = False     # partitioning starts at a designated loop cut (unit option par_after)
+        s.lineage = ()       # unique identity of this path in the exploration tree (assigned at clone time)
+        s._n = 0
+        s.bits = ()          # decisions taken at the first K two-way forks (partitioned parallel exploration)
 
     def clone(s):
         c = Path.__new__(Path)
@@ -113,6 +117,11 @@ class Path:
         c.notes = list(s.notes)
         c.consts = s.consts       # shared on purpose: constants are global
         c.unsat = s.unsat
+        c.bits = s.bits
+        s._n += 1
+        c.lineage = s.lineage + (s._n,)
+        c._n = 0
+        c.par_on = s.par_on
         return c
 
     # ------------------------------------------------------------------ solver
